@@ -92,3 +92,18 @@ package docx
 //@   property C02
 //@   flags callsites
 //@   callsite io.ReadAll(x) requires members_are_read_through_readPart: false
+
+// ---- C15: a paragraph that is a heading only through direct formatting (w:outlineLvl, 0-based in OOXML) gets the
+// 1-based heading level outlineLvl + 1 ----
+//@ func parseOutlineLevel results (r)
+//@   property C15
+//@   flags pure
+//@   ensures in_range_or_minus_one: r == -1 || (0 <= r && r <= 8)
+//@   loop 0:
+//@     invariant level >= 0
+//@ func (*Reader) processParagraph results (res)
+//@   property C15
+//@   flags nosafety
+//@   atreturn#1 outline_level_is_zero_based: (isnil(r.styleResolver) ? parsed.StyleID == "" : !isnil(resolvedStyle) && !resolvedStyle.IsHeading) && ppr.OutlineLvl.Val != "" && parseOutlineLevel(ppr.OutlineLvl.Val) >= 0 ==> parsed.IsHeading && parsed.Level == parseOutlineLevel(ppr.OutlineLvl.Val) + 1
+//@   loop 0:
+//@     invariant parsed.IsHeading == entry(parsed.IsHeading) && parsed.Level == entry(parsed.Level) && parsed.StyleID == entry(parsed.StyleID) && isnil(r.styleResolver) == isnil(old(r.styleResolver)) && resolvedStyle == entry(resolvedStyle)
